@@ -46,8 +46,9 @@ INHERITED = {      # accessibles the SECoP base classes bring along (generator k
     'Writable': ['value', 'status', 'pollinterval', 'target'],
     'Drivable': ['value', 'status', 'pollinterval', 'target', 'stop'],
 }
-SHIPPED_QUICK = ['demo', 'cryo']
-SHIPPED_THOROUGH = ['demo', 'cryo', 'sim', 'test', 'sim_mlz_cci3he1', 'sim_mlz_htf02', 'ls370sim']
+SHIPPED_QUICK = ['demo', 'cryo', 'startup:out-first', 'startup:loop-first']
+SHIPPED_THOROUGH = ['demo', 'cryo', 'sim', 'test', 'sim_mlz_cci3he1', 'sim_mlz_htf02', 'ls370sim',
+                    'startup:out-first', 'startup:loop-first']
 # (sim_mlz_entangle_simulation blocks in a driver when its simulation threads do not run)
 
 
@@ -679,6 +680,58 @@ class _TL(LoggerStub):
         return c
 
 
+def _startup_server(cfg):
+    """a node started the way the real server does it: Server._processCfg on a stub - the start-up itself calls
+    get_descriptive_data('') while the modules are initialised one after the other (in the order of the
+    configuration).  A HasControlledBy output and its HasOutputModule controller: initialising the controller
+    extends the enum of the output's controlled_by.  'startup:out-first' / 'startup:loop-first' = configuration order."""
+    import io
+    import sys
+    from frappy.datatypes import FloatRange
+    from frappy.mixins import HasControlledBy, HasOutputModule
+    from frappy.modules import Parameter, Writable
+    from frappy.server import Server
+
+    class Out(HasControlledBy, Writable):
+        value = Parameter('v', FloatRange(0, 10), default=0)
+        target = Parameter('t', FloatRange(0, 10), readonly=False, default=0)
+
+        def write_target(self, value):
+            self.self_controlled()
+            return value
+
+    class Loop(HasOutputModule, Writable):
+        value = Parameter('v', FloatRange(0, 10), default=0)
+        target = Parameter('t', FloatRange(0, 10), readonly=False, default=0)
+
+        def write_target(self, value):
+            self.activate_control()
+            self.output_module.update_target(self.name, value)
+            return value
+
+    mods = {'out': {'cls': Out, 'description': 'output'},
+            'loop': {'cls': Loop, 'description': 'controller', 'output_module': 'out'},
+            'aux': {'cls': Out, 'description': 'another output nobody controls'}}
+    order = ['out', 'loop', 'aux'] if cfg.endswith('out-first') else ['loop', 'aux', 'out']
+
+    class Stub:
+        _testonly = True
+        name = 'node'
+        restart = shutdown = None
+    stub = Stub()
+    stub.log = _TL('c06').getChild('srv')
+    stub.node_cfg = {'cls': 'frappy.protocol.dispatcher.Dispatcher', 'description': 'started like a server',
+                     'equipment_id': 'startup_node', '_note': 'n1'}
+    stub.module_cfg = {m: dict(mods[m]) for m in order}
+    saved = sys.stderr
+    sys.stderr = io.StringIO()
+    try:
+        Server._processCfg(stub)
+    finally:
+        sys.stderr = saved
+    return stub
+
+
 def _shipped(cfg):
     import os
     import tempfile
@@ -695,8 +748,11 @@ def _shipped(cfg):
     threading.Thread.start = lambda self: None                                 # (this is a forked worker process)
     from frappy.server import Server
     try:
-        srv = Server(cfg, _TL('c06'), cfgfiles=[str(REPO / 'cfg' / f'{cfg}_cfg.py')], interface='tcp://0', testonly=True)
-        srv._processCfg()
+        if cfg.startswith('startup:'):
+            srv = _startup_server(cfg)
+        else:
+            srv = Server(cfg, _TL('c06'), cfgfiles=[str(REPO / 'cfg' / f'{cfg}_cfg.py')], interface='tcp://0', testonly=True)
+            srv._processCfg()
     except BaseException as e:  # SystemExit on configuration errors
         return {'cfg': cfg, 'error': repr(e)[:300]}
     finally:
@@ -768,6 +824,13 @@ def _shipped(cfg):
             else:
                 for act in ('read', 'activate'):
                     p.request(act, m, nm, None)
+    if cfg.startswith('startup:'):
+        # drive the controller: the output's controlled_by takes the value naming the controller, then goes back
+        for act, m, w, pay in (('change', 'loop', 'target', 5), ('read', 'out', 'controlled_by', None),
+                               ('activate', 'out', '', None), ('change', 'out', 'target', 3),
+                               ('read', 'out', 'controlled_by', None), ('change', 'loop', 'target', 2),
+                               ('activate', 'out', 'controlled_by', None)):
+            p.request(act, m, w, pay)
     p.request('describe', '', '', None)          # after all these reads and changes: the same report
     signal.alarm(0)
     hidden = [[m, w] for m, obj in sec.modules.items() for w, a in obj.accessiblename2attr.items()
@@ -870,7 +933,7 @@ def run(chk):
             raise MachineryError(f"shipped configuration {x['cfg']} does not load: {x['error']}")
         traces.append(x['trace'])
         hidden.append(x['hidden'])
-        worlds.append('shipped:' + x['cfg'])
+        worlds.append(x['cfg'] if x['cfg'].startswith('startup:') else 'shipped:' + x['cfg'])
 
     devs, done, st, trn = dc.validate_events('Trace_Describe', traces, 'Trace_Describe.cfg', timeout=1000, chunk=400)
     chk.states += st
